@@ -63,6 +63,7 @@ type Module struct {
 	Methods map[string][]string // interface -> exported method names (complete method set)
 	Class   map[string]string   // "<iface>.<method>" -> shape class of the signature
 	Disting map[string]bool     // "<iface>.<method>" -> calls are distinguishable by an int or string argument
+	Fields  map[string][]string // "<iface>.<method>" -> expected call-record field names ("" = parameter without a written name)
 	GenLog  []string
 }
 
@@ -170,8 +171,17 @@ func Generate(sc *core.Scratch, moqBin string, variants []Variant) (*Module, err
 			for i := range ms {
 				q[i] = fmt.Sprintf("%q", ms[i])
 			}
-			fmt.Fprintf(&reg, "\tmockdrv.Register(mockdrv.Entry{Name: %q, New: func() any { return new(%s%s) }, Methods: []string{%s}, MockType: %q, Iface: %q, Stub: %v, Resets: %v})\n",
-				key, c.Mock(), ta, strings.Join(q, ", "), c.Mock(), c.Name, v.Stub, v.Resets)
+			var fq []string
+			for _, x := range ms {
+				fl := m.Fields[c.Name+"."+x]
+				qq := make([]string, len(fl))
+				for i := range fl {
+					qq[i] = fmt.Sprintf("%q", fl[i])
+				}
+				fq = append(fq, fmt.Sprintf("%q: {%s}", x, strings.Join(qq, ", ")))
+			}
+			fmt.Fprintf(&reg, "\tmockdrv.Register(mockdrv.Entry{Name: %q, New: func() any { return new(%s%s) }, Methods: []string{%s}, MockType: %q, Iface: %q, Stub: %v, Resets: %v, Fields: map[string][]string{%s}})\n",
+				key, c.Mock(), ta, strings.Join(q, ", "), c.Mock(), c.Name, v.Stub, v.Resets, strings.Join(fq, ", "))
 			m.Mocks = append(m.Mocks, MockInfo{Key: key, Variant: v, Iface: c, Methods: ms, File: filepath.Join(m.mockDir(v), "mocks_gen.go")})
 		}
 		fmt.Fprintf(&reg, "}\n")
@@ -219,6 +229,21 @@ func (m *Module) loadMethods(v Variant) error {
 				ms = append(ms, it.Method(i).Name())
 				sig := it.Method(i).Type().(*types.Signature)
 				m.Class[c.Name+"."+it.Method(i).Name()] = shapeClass(sig)
+				// the call record's field names, where the interface writes parameter names
+				// (the rule of C13: first letter upper-cased, well-known initialisms entirely)
+				var fl []string
+				for k := 0; k < sig.Params().Len(); k++ {
+					n := sig.Params().At(k).Name()
+					if n == "" || n == "_" {
+						fl = append(fl, "")
+					} else {
+						fl = append(fl, exportedName(n))
+					}
+				}
+				if m.Fields == nil {
+					m.Fields = map[string][]string{}
+				}
+				m.Fields[c.Name+"."+it.Method(i).Name()] = fl
 				for k := 0; k < sig.Params().Len(); k++ {
 					if b, ok := sig.Params().At(k).Type().(*types.Basic); ok && b.Info()&(types.IsInteger|types.IsString) != 0 {
 						m.Disting[c.Name+"."+it.Method(i).Name()] = true
@@ -230,6 +255,18 @@ func (m *Module) loadMethods(v Variant) error {
 		m.Methods[c.Name] = ms
 	}
 	return nil
+}
+
+var initialisms = map[string]bool{"ACL": true, "API": true, "ASCII": true, "CPU": true, "CSS": true, "DNS": true, "EOF": true, "GUID": true, "HTML": true, "HTTP": true, "HTTPS": true, "ID": true,
+	"IP": true, "JSON": true, "LHS": true, "QPS": true, "RAM": true, "RHS": true, "RPC": true, "SLA": true, "SMTP": true, "SQL": true, "SSH": true, "TCP": true, "TLS": true, "TTL": true, "UDP": true,
+	"UI": true, "UID": true, "UUID": true, "URI": true, "URL": true, "UTF8": true, "VM": true, "XML": true, "XMPP": true, "XSRF": true, "XSS": true}
+
+// exportedName: the documented record-field rule (an independent copy, see spec/MoqNames.tla Exported).
+func exportedName(s string) string {
+	if initialisms[strings.ToUpper(s)] {
+		return strings.ToUpper(s)
+	}
+	return strings.ToUpper(s[:1]) + s[1:]
 }
 
 // Build compiles the driver. A compile error in generated code is reported
